@@ -129,7 +129,7 @@ class C13(object):
     time_keys = {"steps": "scheduler steps (one per instrumented access, GOMP entry or allocator call)"}
     fault_keys = ["switches", "realloc_moved", "realloc_stay", "alloc", "free", "parallel_runs"]
     tiers = {"quick": {"runs": 50000, "budget_s": 50, "selftest_every": 40, "fresh_selftest": 12},
-             "thorough": {"runs": 4000000, "budget_s": 780, "selftest_every": 200, "fresh_selftest": 24}}
+             "thorough": {"runs": 12000000, "budget_s": 780, "selftest_every": 200, "fresh_selftest": 24}}
     rule = ("one run = (image, variant dense|sparse, team 1..64, strategy random/pct/rtc/rr, seeded interleaving at "
             "instrumented-access granularity, garbage in labels/wrk/MV/iMV and on the stacks); distinct = distinct "
             "(image digest, team delivered, conflict signature = hash of the order of cross-thread accesses to "
